@@ -21,6 +21,10 @@ OVERRIDES = {
     "C05-6A": (["--release"], None), "C07-6A": (["--release"], None), "C10-6B": ([], False),
     "C11-6A": (["--release"], None), "C12-6A": (["--release"], None), "C15-6A": (["--features", "std"], None),
     "C15-6B": (["--features", "std"], None), "C16-6A": (["--release"], True), "C17-6B": ([], False),
+    "C01-7A": (["--release"], None), "C03-7A": (["--features", "p384"], None), "C04-7A": (["--release"], True),
+    "C04-7B": (["--no-default-features", "--features", "x25519"], False), "C05-7B": (["--no-default-features", "--features", "std,x25519"], True),
+    "C13-7B": (["--features", "p384"], None), "C16-7B": (["--no-default-features", "--features", "x25519"], None),
+    "C18-7B": (["--features", "std"], None), "C17-7A": ([], False),
 }
 
 
